@@ -46,6 +46,7 @@ type ScenarioSpec struct {
 	SameKeys bool // clients collide on the same keys (C02)
 	RealDisk bool // databases on real directories: snapshots carry content (see oxc.RealDiskNext)
 	LossyRPC int  // that many coordinator RPC answers may be lost; which ones is explored
+	Breaks   int  // that many times a replication connection may drop under a message; where is explored
 }
 
 // Monitor is evaluated at every scheduling point and at the end.
@@ -115,6 +116,7 @@ func Body(spec ScenarioSpec, mk func() []Oracle) func(s *vsched.Sched) {
 		s.Settle()
 		s.Explore(true)
 		c.LossBudget = spec.LossyRPC
+		c.Repl.BreakBudget = spec.Breaks
 		for cl := 0; cl < spec.Clients; cl++ {
 			cl := cl
 			vsched.Go(func() { clientLoop(c, s, obs, spec, cl) })
@@ -136,6 +138,7 @@ func Body(spec ScenarioSpec, mk func() []Oracle) func(s *vsched.Sched) {
 		}
 		s.Explore(false)
 		c.LossBudget = 0
+		c.Repl.BreakBudget = 0
 		// ---- heal and establish ground truth
 		for _, name := range c.Order {
 			if !c.Nodes[name].Up {
@@ -527,7 +530,7 @@ func dbg(f string, a ...any) {
 }
 
 func faultThread(c *Cluster, s *vsched.Sched, spec ScenarioSpec) {
-	switch strings.TrimSuffix(spec.Fault, "-lossy") {
+	switch strings.TrimSuffix(strings.TrimSuffix(spec.Fault, "-lossy"), "-break") {
 	case "leader-crash", "leader-crash-restart":
 		l, _ := c.LeaderByStatus()
 		if l == "" {
